@@ -3,6 +3,62 @@ from . import core, it
 from .runner import PropCheck
 
 
+GOOD = [1, 2, 10, 12, 14, 15, 17, 34, 64]
+REFUSED = [9, 19, 4, 8, 11, -1, 128, 1000, 65, 0, 32]
+
+
+def live_histories(rng, n):
+    """one instance: `new`, then add_signal calls (on the instance / a handle clone; valid, repeated, refused) and
+    real deliveries (`check s` raises s and looks at what the instance yields), in every order - in particular
+    deliveries of a signal added after a refused call, above and below everything watched before"""
+    blocks = []
+    for exf in ("only", "raw"):
+        for bad in (9, 65, 128):
+            for how in ("add", "hadd"):
+                blocks.append(["new %s 10" % exf, "check 10", "%s %d" % (how, bad), "%s 12" % how, "check 10", "check 12", "check 12"])
+                blocks.append(["new %s 12" % exf, "%s %d" % (how, bad), "%s 10" % how, "check 10", "check 12"])
+                blocks.append(["new %s 10" % exf, "%s %d" % (how, bad), "check 10", "%s 34" % how, "%s %d" % (how, bad), "%s 64" % how, "check 64", "check 34", "check 10"])
+    for _ in range(n):
+        first = rng.sample(GOOD, rng.randint(1, 2))
+        b = ["new %s %s" % (rng.choice(["only", "raw"]), " ".join(str(x) for x in first))]
+        watched = list(first)
+        for _ in range(rng.randint(3, 9)):
+            r = rng.random()
+            if r < 0.25:
+                b.append("%s %d" % (rng.choice(["add", "hadd"]), rng.choice(REFUSED)))
+            elif r < 0.5:
+                x = rng.choice(GOOD); b.append("%s %d" % (rng.choice(["add", "hadd"]), x)); watched.append(x)
+            else:
+                b.append("check %d" % rng.choice(watched))
+        b.append("check %d" % watched[-1])
+        blocks.append(b)
+    return blocks
+
+
+def monitor_history(block, impl):
+    probs = []
+    ex = next((l for l in impl if l.startswith("exit")), "exit ?")
+    if ex != "exit continues":
+        return []          # a process that dies is C12's / C14's business
+    watched, alive, refused = set(), False, None
+    for op, res in zip(block, impl):
+        w = op.split()
+        if w[0] == "new":
+            alive = res.startswith("ok")
+            watched = set(int(x) for x in w[2:]) if alive else set()
+        elif w[0] in ("add", "hadd") and alive:
+            if res.startswith("ok"):
+                watched.add(int(w[1]))
+            else:
+                refused = op
+        elif w[0] == "check" and alive and res.startswith("flag=") and int(w[1]) in watched:
+            n = int(w[1])
+            if "flag=true" in res and "yielded=[%d]" % n not in res:
+                probs.append("history `%s`: signal %d is watched by the live instance and was delivered (an independent flag saw it), but the instance did not yield it%s: `%s`" % (
+                    "; ".join(block), n, (" (an earlier `%s` had been refused)" % refused) if refused else "", res))
+    return probs
+
+
 class IterCheck(PropCheck):
     pid = "C09"
     prop_module = "SigHook.Props.C09"
@@ -22,6 +78,7 @@ class IterCheck(PropCheck):
         scenarios = [it.gen_scenario(rng, self.profile) for _ in range(n)]
         if self.pid == "C11":
             scenarios += it.close_window_sweep(rng)
+            scenarios += it.close_park_sweep(rng)
         if self.pid == "C09":
             scenarios += it.pending_window_sweep(rng)
         results = it.run_many(scenarios)
@@ -132,10 +189,33 @@ class IterCheck(PropCheck):
                     failures.append({"kind": "violation", "key": "C10:origin:" + o.split()[1],
                                      "what": "delivery via %s: the record handed out by the origin exfiltrator is `%s`, the information of that delivery (raw siginfo %s) is `%s`: not a faithful copy" % (o.split()[1], parts[1], raw, spec),
                                      "payload": {"origin": True, "ops": [o], "impl": [l]}})
+        # histories of one live instance at the level of the public calls (forked children, real raise()): the watched
+        # set grows through add_signal on the instance and on handles, some of those calls are refused (by panic or
+        # by the OS); whatever is watched at the moment of a delivery must be yielded - whatever happened before
+        nh = 0
+        if self.pid == "C09":
+            from . import c14
+            hb = live_histories(rng, 60 if tier == "quick" else 3000)
+            chunks = [hb[i::core.NPROC] for i in range(core.NPROC)]
+            for ch, (ib, mb) in zip(chunks, core.pmap(c14.run_blocks, chunks)):
+                for b, i, m in zip(ch, ib, mb):
+                    nh += 1
+                    i, m = c14.canon_impl(i), c14.canon_model(m)
+                    probs = monitor_history(b, i)
+                    dist["history:checks"] = dist.get("history:checks", 0) + sum(1 for o in b if o.startswith("check"))
+                    dist["history:refused"] = dist.get("history:refused", 0) + sum(1 for l in i if l.startswith(("panic", "err")))
+                    if probs:
+                        failures.append({"kind": "violation", "key": "C09:history:" + core.digest(probs[0][:40]), "what": probs[0],
+                                         "payload": {"history": True, "ops": b, "impl": i, "model": m}})
+                    elif i != m:
+                        d = core.first_diff(m, i)
+                        failures.append({"kind": "disagreement", "key": "C09:historydiff",
+                                         "what": "ops `%s`: model `%s` vs implementation `%s`" % ("; ".join(b), d[1], d[2]),
+                                         "payload": {"history": True, "ops": b, "impl": i, "model": m}})
         uniq = {}
         for f in failures:
             uniq.setdefault(f["key"], f)
-        return {"evaluations": len(results) + nq + nfe, "distinct_nontrivial": nontrivial,
+        return {"evaluations": len(results) + nq + nfe + nh, "distinct_nontrivial": nontrivial, "instance_histories": nh,
                 "queue_exfiltrator_scenarios": nq, "frontend_blocks": nfe,
                 "rule": "random scenarios on the real SignalDelivery / SignalIterator (SignalOnly): 1-2 delivery threads (simulated deliveries of watched signals through the real dispatcher and action), one consumer (style A: wait/pending; style B: poll_signal with a non-blocking callback / forever with a blocking one), optional close() threads, optionally a pre-filled self-pipe; PRNG schedule at every atomic operation, send/recv and callback; compared step by step with the Lean L8 model; monitors on the implementation trace; non-trivial = at least one signal yielded; for C09/C10 additionally scenarios with the queueing exfiltrator WithRawSiginfo (repeated deliveries of one signal, bursts beyond the channel's capacity, unique id per delivery and a byte pattern over the whole siginfo_t; those without add_signal are compared step by step with the Lean L8q model at the level of channel operation halves; all are judged by the property monitors: no record stranded when poll answers Pending or the consumer parks; every yielded record is one delivered record, once); plus operation-level probes of the front ends in forked children with real raise(): Signals::pending / wait / forever().next() (bursts whose wake-up bytes are multiples of the 16-byte has_signals chunk and beyond the 1024-byte flush), signal-hook-mio readiness under a real mio::Poll, signal-hook-tokio and signal-hook-async-std poll_next with a flag waker (Pending must be followed by a waker call once a signal arrives or close() is called), each compared with the L8 model run sequentially and judged by the monitors",
                 "samples": [{"scenario": results[0]["scenario"], "trace": [l for l in results[0]["impl"] if " cas " not in l or "= ok" in l][:16]}] if results else [],
@@ -147,6 +227,12 @@ class IterCheck(PropCheck):
             import subprocess
             p = subprocess.run([core.HARNESS_BIN, "channel-stress", "3000"], capture_output=True, text=True, timeout=120)
             return "PROBLEM" in p.stdout or p.returncode != 0, p.stdout
+        if payload.get("history"):
+            from . import c14
+            ib, mb = c14.run_blocks([payload["ops"]])
+            i, m = c14.canon_impl(ib[0]), c14.canon_model(mb[0])
+            probs = monitor_history(payload["ops"], i)
+            return bool(probs) or i != m, "ops: %s\nimpl:  %s\nmodel: %s\n%s" % ("; ".join(payload["ops"]), i, m, "\n".join(probs))
         if payload.get("frontend"):
             from . import fe
             return fe.replay(self.pid, payload)
@@ -193,7 +279,7 @@ class C10(IterCheck):
 class C11(IterCheck):
     pid = "C11"
     prop_module = "SigHook.Props.C11"
-    extra_modules = ("SigHook.Props.C11b", "SigHook.Props.C11c")
+    extra_modules = ("SigHook.Props.C11b", "SigHook.Props.C11c", "SigHook.Props.C11d")
 
     def correspond(self, tier, seed, rng):
         res = super().correspond(tier, seed, rng)
